@@ -711,7 +711,6 @@ def set_method(I, o, name):
 def lock_method(I, o, name):
     def acquire(I_, a, k):
         blocking = a[0] if a else k.get('blocking', True)
-        I.trace.append((o.name + '.acquire', tuple(a), dict(k)))
         held = o.held
         h = held if isinstance(held, bool) else I.path.decide(held.t)
         if h:
@@ -723,7 +722,6 @@ def lock_method(I, o, name):
         return True
 
     def release(I_, a, k):
-        I.trace.append((o.name + '.release', (), {}))
         held = o.held
         h = held if isinstance(held, bool) else I.path.decide(held.t)
         if not h:
@@ -747,7 +745,6 @@ def lock_method(I, o, name):
 
 def queue_method(I, o, name):
     def put(I_, a, k):
-        I.trace.append((o.name + '.put', tuple(a), dict(k)))
         maxsize = getattr(o, 'maxsize', 0)
         if maxsize and len(o.items) >= maxsize:
             block = a[1] if len(a) > 1 else k.get('block', True)
@@ -759,12 +756,13 @@ def queue_method(I, o, name):
     def get(I_, a, k):
         block = a[0] if a else k.get('block', True)
         timeout = a[1] if len(a) > 1 else k.get('timeout')
-        I.trace.append((o.name + '.get', tuple(a), dict(k)))
         if not o.items:
             if I.decide(block) and timeout is None:
                 raise PyRaise(ExcVal(M.exc_class(I, 'Deadlock'), ('get on empty queue %s' % o.name,)))
             I.raise_py('queue.Empty')
         return o.items.pop(0)
+    if name == 'queue':
+        return PList(o.items) if False else tuple(o.items)
     tbl = {'put': put, 'get': get, 'put_nowait': lambda I_, a, k: put(I_, [a[0], False], {}),
            'get_nowait': lambda I_, a, k: get(I_, [False], {}),
            'empty': lambda I_, a, k: len(o.items) == 0, 'qsize': lambda I_, a, k: len(o.items),
@@ -777,14 +775,12 @@ def queue_method(I, o, name):
 
 def event_method(I, o, name):
     def set_(I_, a, k):
-        I.trace.append((o.name + '.set', (), {}))
         o.flag = True
 
     def clear(I_, a, k):
         o.flag = False
 
     def wait(I_, a, k):
-        I.trace.append((o.name + '.wait', tuple(a), dict(k)))
         f = o.flag
         if f is True:
             return True
@@ -1146,7 +1142,60 @@ def external_init(I, o, args, kwargs):
 
 
 def instantiate_special(I, cls, args, kwargs):
+    if getattr(cls, '_enum_members', None) is not None:
+        return enum_lookup(I, cls, args, kwargs)
     return None
+
+
+# ------------------------------------------------------------------ enum.Enum (plain Enum only; added for C18)
+# Members are singleton Obj instances of the class (identity == equality, as in CPython) carrying
+# `name` / `value`; `Cls(value)` returns the member with that value (forks on a symbolic value) or
+# raises ValueError.  IntEnum / Flag / auto() / _missing_ / iteration over the class are not modelled.
+
+ENUM = ExtClass('Enum')
+EXTERNALS['enum.Enum'] = lambda I: ENUM
+
+
+def class_created(I, cls):
+    """called by Interp.st_ClassDef after the class body has been executed"""
+    if not any(isinstance(b, ExtClass) and b.name == 'Enum' for b in cls.mro()):
+        return
+    members = []
+    for c in reversed(cls.mro()):
+        if isinstance(c, ClassVal) and c is not cls and getattr(c, '_enum_members', None):
+            raise OutOfSubset('subclassing an enumeration with members (%s)' % c.name)
+    for name, v in list(cls.attrs.items()):
+        if name.startswith('_') or isinstance(v, (FuncVal, PropertyVal, StaticMethod, ClassMethod, ClassVal, Opaque)):
+            continue
+        if is_sym(v) or not isinstance(v, (int, str, float, tuple)):
+            raise OutOfSubset('enum member %s.%s with value %r' % (cls.name, name, v))
+        alias = None
+        for m in members:
+            if type(m.attrs['value']) is type(v) and m.attrs['value'] == v:
+                alias = m
+                break
+        if alias is None:
+            alias = Obj(cls)
+            alias.attrs.update({'name': name, 'value': v, '_name_': name, '_value_': v})
+            members.append(alias)
+        cls.attrs[name] = alias
+    cls._enum_members = members
+
+
+M.class_created = class_created
+
+
+def enum_lookup(I, cls, args, kwargs):
+    if len(args) != 1 or kwargs:
+        raise OutOfSubset('functional enum API on %s' % cls.name)
+    v = args[0]
+    if isinstance(v, Obj) and v.cls is cls:
+        return v
+    for m in cls._enum_members:
+        r = py_eq(I, m.attrs['value'], v)
+        if r is True or (r is not False and I.path.decide(r.t)):
+            return m
+    I.raise_py('ValueError', '%s is not a valid %s' % ('<value>' if is_sym(v) or not isinstance(v, (int, str, float)) else repr(v), cls.name))
 
 
 def call_other(I, f, args, kwargs):
@@ -1160,6 +1209,8 @@ def call_other(I, f, args, kwargs):
             I.raise_py('TypeError', '%s() takes %d positional arguments' % (f.name, len(f.fields)))
         return M.NTVal(f, items)
     if isinstance(f, ExtClass):
+        if f.name == 'Thread' and I.cfg.get('thread_model') is not None:
+            return _model_thread(I, args, kwargs)       # opt-in (c.model_threads), see below
         if f.name == 'Thread':
             t = Ext(I.path.fresh_name('thread'), cls='Thread')
             t.target = kwargs.get('target')
@@ -1167,6 +1218,80 @@ def call_other(I, f, args, kwargs):
             I.trace.append(('Thread', (), {'thread': t, 'target': t.target, 'args': t.t_args}))
             return t
     raise OutOfSubset('call of %r' % (f,))
+
+
+# ------------------------------------------------------------------ opt-in thread model (c.model_threads)
+# threading.Thread(target=f, args=a): f(*a) runs exactly once, atomically, at a scheduler-chosen point
+# between start() and the return of an (untimed) join(); a thread never joined may still be pending
+# when the call under contract returns.  Scheduler points are every start()/join() of a modelled
+# thread; at each point the scheduler runs any sequence of pending threads (all sequences are
+# explored).  Every choice is a logged symbolic int 'sched!k' so that the native ModelThread
+# (nativectx.py) replays the same schedule.  Trace: 'Thread', '<t>.start', '<t>.run', '<t>.end',
+# '<t>.uncaught' (an Exception that escaped the target, swallowed as threading does), '<t>.join'.
+
+def _model_thread(I, args, kwargs):
+    st = I.cfg['thread_model']
+    t = Ext(I.path.fresh_name('thread'), cls='Thread')
+    t.target = kwargs.get('target')
+    t.t_args = kwargs.get('args', ())
+    t.t_kwargs = kwargs.get('kwargs')
+    t.state = 'new'
+    if args or t.target is None:
+        raise OutOfSubset('modelled Thread needs target= and args= keywords')
+    I.trace.append(('Thread', (), {'thread': t, 'target': t.target, 'args': t.t_args}))
+
+    def start(I_, a, k):
+        if t.state != 'new':
+            I.raise_py('RuntimeError', 'threads can only be started once')
+        t.state = 'pending'
+        st['pending'].append(t)
+        _thread_sched_point(I, st, None)
+
+    def join(I_, a, k):
+        if t.state == 'new':
+            I.raise_py('RuntimeError', 'cannot join thread before it is started')
+        timed = (a and a[0] is not None) or k.get('timeout') is not None
+        _thread_sched_point(I, st, None if timed else t)
+    t.returns = {'start': start, 'join': join, 'is_alive': lambda I_, a, k: t.state == 'pending'}
+    return t
+
+
+def _thread_sched_point(I, st, must):
+    while True:
+        opts = list(st['pending'])
+        if not opts:
+            return
+        can_stop = must is None or must.state != 'pending' or must not in opts
+        n = len(opts) + (1 if can_stop else 0)
+        pick = 0
+        if n > 1:
+            name = I.path.fresh_name('sched')
+            d = z3.Int(name)
+            I.path.assume(z3.And(d >= 0, d < n))
+            if not hasattr(I.path, 'fresh_log'):
+                I.path.fresh_log = []
+            I.path.fresh_log.append((name, 'int', d))
+            pick = n - 1
+            for i in range(n - 1):
+                if I.path.decide(d == i):
+                    pick = i
+                    break
+        if pick == len(opts):
+            return
+        t = opts[pick]
+        st['pending'].remove(t)
+        I.trace.append((t.name + '.run', (), {}))
+        kw = {}
+        if t.t_kwargs is not None:
+            kw = dict(zip(t.t_kwargs.keys, t.t_kwargs.vals))
+        try:
+            I.call(t.target, I.iterate_all(t.t_args), kw)
+        except PyRaise as pr:
+            if not pr.exc.cls.is_sub(I.exc_class('Exception')):
+                raise
+            I.trace.append((t.name + '.uncaught', (pr.exc,), {}))
+        t.state = 'done'
+        I.trace.append((t.name + '.end', (), {}))
 
 
 def getitem(I, o, k):
